@@ -403,7 +403,8 @@ func opExt(args []string) string {
 }
 
 // escsets: the two 128-entry JSON escape tables as filled by json's init()
-//   -> <128 x 0/1 json set>|<128 x 0/1 html set>
+//
+//	-> <128 x 0/1 json set>|<128 x 0/1 html set>
 func opEscSets(args []string) string {
 	js, hs := json.VerifEscapeSets()
 	f := func(t []bool) string {
